@@ -127,7 +127,7 @@ def run(case, choices):
     clients = [w.add_client("c%d" % i, c["ops"], addr=w.addrs[i % 2] if len(w.addrs) > 1 else None) for i, c in enumerate(case["clients"])]
     open_socks = {}          # fd -> dict(name, at)
     active = {}              # fd -> task name of the handler currently between handle-begin and handle-end
-    state = {"max_open": 0, "term_at": None, "spin": None, "accepted": 0, "closed_by": {}}
+    state = {"max_open": 0, "term_at": None, "spin": None, "accepted": 0, "closed_by": {}, "ready_seen": {}}
     regime = "at-capacity" if case["at_capacity"] else "under-capacity"
     ctx = lambda: "threads=%d worker_connections=%d keepalive=%s graceful=%s term=%r regime=%s clients=%r t=%.2f" % (
         case["threads"], wc, ka, gt, case["term"], regime, [c["ops"] for c in case["clients"]][:4], sim.now)
@@ -190,9 +190,16 @@ def run(case, choices):
                                     "keep-alive connection fd %d closed %.3f s before its deadline; %s" % (fd, deadline - wall, ctx()))
                     if any(h for h in active.values()):
                         s.probe("keepalive_expired_while_other_handler_running")
+                state["ready_seen"].pop(fd, None)
                 open_socks[fd]["closed_at"] = s.now
                 state["closed_by"][open_socks[fd]["name"]] = (s.now, me)
                 del open_socks[fd]
+        elif kind == "sel-ready" and actor == "worker":
+            for fd in detail:
+                if fd in open_socks:
+                    state["ready_seen"].setdefault(fd, (s.now, open_socks[fd]["name"]))
+        elif kind == "sel-unregister" and actor == "worker":
+            state["ready_seen"].pop(detail, None)
         elif kind == "handle-begin":
             active[detail] = actor
             for key in [k for k in w.w3.armed if k[0] == detail]:
@@ -253,6 +260,15 @@ def run(case, choices):
                         else "C13:main-loop-spins:other",
                         "the main loop stopped blocking at t=%.2f (nr_conns=%r, worker_connections=%d, futures=%d): it neither polls nor "
                         "waits, so readable connections starve and the CPU burns; %s" % (at, nrc, wc, nf, ctx()))
+        # a connection that the poller REPORTED readable to the main loop must be acted upon (taken off the poller and dispatched, or
+        # closed): the loop may be unable to poll (the at-capacity finding), but it may not drop what a poll told it
+        for fd_, (seen_, name_) in sorted(state["ready_seen"].items()):
+            lim_ = state["term_at"] if termed else sim.now
+            if lim_ - seen_ > 1.0 and p.state == "running":
+                res.violate("C13:ready-connection-ignored", "select() reported connection fd %d (%s) readable at t=%.2f; %.1f s later the main "
+                            "loop has neither dispatched nor closed it (nr_conns=%r, futures=%d); %s"
+                            % (fd_, name_, seen_, lim_ - seen_, getattr(wk, "nr_conns", None), len(getattr(wk, "futures", ())), ctx()))
+                break
         # ---- bounded liveness, evaluated only for what happened before TERM and outside the at-capacity regime
         for c, spec in zip(clients, case["clients"]):
             if termed:
